@@ -69,8 +69,20 @@ def _add_profile(ctx, prof, scale, dtype, origin):
 
 
 def gen_profile(rng):
-    n = rng.choice([1, 2, 3, 4, 5, 6, 7, 8, 9, 10, 12, 15, 20])
+    n = rng.choice([1, 2, 3, 4, 5, 6, 7, 8, 9, 10, 12, 15, 20, 30, 40])
     kind = rng.random()
+    if kind < 0.22:
+        # a sequence of depressions behind barriers of varying height and length (rising, falling or equal from
+        # one depression to the next), with head cells at levels in between: every dig / fill / dig-and-fill
+        # decision depends on what was decided for the depression before
+        z = rng.randint(6, 14)
+        out = [z + rng.randint(0, 3) for _ in range(rng.randint(1, 3))]
+        for _ in range(rng.randint(2, 4)):
+            out += [rng.randint(0, 5) + rng.choice([0, 0, 0.5]) for _ in range(rng.randint(1, 3))]      # the depression
+            bar = rng.randint(2, 12)
+            out += [bar + rng.choice([0, 0, 0, 1]) for _ in range(rng.choice([1, 1, 2, 4, 6]))]        # its barrier
+        out.append(rng.randint(0, 2))
+        return [int(2 * v) for v in out] if rng.random() < 0.5 else [int(v) for v in out]
     if kind < 0.35:
         lv = rng.choice([2, 3, 4, 6])
         return [rng.randint(0, lv - 1) for _ in range(n)]
@@ -440,7 +452,7 @@ def run(ctx):
     quick = ctx.tier == "quick"
     esc = ctx.escalate
     # 1. profiles
-    nprof = (500 if quick else 12000) * esc
+    nprof = (800 if quick else 12000) * esc
     for _ in range(nprof):
         p = gen_profile(rng)
         scale = 2 if rng.random() < 0.15 else 1
